@@ -642,6 +642,7 @@ func (w *World) VerifyAll(health bool) {
 			}
 		}
 		w.Compare(r, rootValue(r), fmt.Sprintf("root%d", i))
+		w.checkLoaded(r, i)
 	}
 	if health {
 		roots, err := atree.CheckStorageHealth(w.St, len(w.Roots))
@@ -849,5 +850,32 @@ func (w *World) Retype(k int) {
 			}
 			w.Rep.Op("map.settype")
 		}
+	}
+}
+
+// checkLoaded: right after Compare has walked (and thereby loaded) every slab of a root, the
+// loaded-value iteration must yield every element of the root (C13: "loaded-values with all slabs
+// loaded" equals the full enumeration), also when a newer version of a slab sits in the write set
+// while an older one is still in the read cache.
+func (w *World) checkLoaded(s SV, i int) {
+	n := 0
+	var err error
+	var want int
+	switch x := s.(type) {
+	case *svArr:
+		want = len(x.elems)
+		err = x.arr.IterateReadOnlyLoadedValues(func(atree.Value) (bool, error) { n++; return true, nil })
+	case *svMap:
+		want = len(x.keys)
+		err = x.m.IterateReadOnlyLoadedValues(func(atree.Value, atree.Value) (bool, error) { n++; return true, nil })
+	default:
+		return
+	}
+	if err != nil {
+		w.Fail("C13: loaded-value iteration failed although every slab is loaded", fmt.Sprintf("root%d: %v", i, err))
+		return
+	}
+	if n != want {
+		w.Fail("C13: loaded-value iteration with every slab loaded does not yield every element", fmt.Sprintf("root%d: %d of %d", i, n, want))
 	}
 }
